@@ -48,6 +48,9 @@ def statusRequest : Bytes := asciiBytes "\\status\\xserverquery"
 def kFinal : Bytes := asciiBytes "final"
 def kQueryId : Bytes := asciiBytes "queryid"
 
+/-- `PACKET_SIZE` -/
+def PACKET_SIZE : Nat := 2048
+
 /-! ### `get_server_values_impl` -/
 
 /-- the loop variables -/
@@ -117,7 +120,7 @@ def recvLoop (s : Sock) : Nat → LoopSt → Q (Map Bytes)
   | fuel + 1, st =>
     if st.done then pure (canon st.vals)
     else do
-      let data ← recv s none
+      let data ← recv s (some PACKET_SIZE)
       let st' ← Q.lift (processPacket st data)
       recvLoop s fuel st'
 
